@@ -508,3 +508,62 @@ def run(rep, programs):
     if sd and key_reversed(prog):
         sd = {"asc": "desc", "desc": "asc"}[sd]
     r_evict_worst(rep, prog, sd)
+
+
+def r_policy_order(rep, prog):
+    """The candidate key is a Policy: "best first" means greatest by Policy's Ord. The derived order is structural (variant order,
+    then the Match priority) and so distinguishes every two different ratings. A hand-written order is accepted as *undecided*
+    unless it visibly collapses ratings: a lossy operation on the Match priority makes different ratings compare Equal, and then
+    neither "keeps the best" nor "best first" holds among them."""
+    rule = "R-POLICY-ORDER"
+    rep.rule(rule, "Policy's Ord / PartialOrd are the derived structural order, or a hand-written order that applies no lossy "
+                   "operation (min, max, clamp, saturating_*, >>, &, /, %) to the Match priority")
+    lossy_calls = ("::min", "::max", "::clamp", "saturating_sub", "saturating_add", "wrapping_sub", "wrapping_add")
+    lossy_bins = ("Shr", "BitAnd", "Div", "Rem")
+    for tr, key in (("core::cmp::Ord>::cmp", "Policy|cmp"), ("core::cmp::PartialOrd>::partial_cmp", "Policy|partial_cmp")):
+        b = prog.body("<llfree::Policy as %s" % tr)
+        if b is None:
+            rep.check(True, rule, key, "undecided: no impl found (ordering supplied elsewhere)")
+            rep.note("%s: %s not found; undecided" % (rule, key))
+            continue
+        rep.saw(b.name)
+        derived = bool((b.span or {}).get("m")) and any(m in ("Ord", "PartialOrd") for m in b.span.get("m"))
+        if derived:
+            rep.check(True, rule, key, "derived (structural order: variant, then Match priority)")
+            continue
+        # hand-written: look through the helpers it calls for a lossy operation on the Match payload
+        seen, todo, bad = set(), [b], None
+        while todo and bad is None:
+            cur = todo.pop()
+            if cur.name in seen:
+                continue
+            seen.add(cur.name)
+            tm = T.Terms(cur, prog)
+            for bi, si, s in cur.stmts():
+                if s["k"] == "assign" and s["rv"]["k"] == "binop" and s["rv"]["op"] in lossy_bins:
+                    t = tm.rvalue(s["rv"])
+                    if any(isinstance(x, tuple) and x and x[0] == "as" and x[-1] == "Match" for x in T.walk(t)):
+                        bad = (s.get("span"), s["rv"]["op"])
+            for bi, t in cur.calls():
+                cn = callee_name(t["callee"]) or ""
+                args = [tm.operand(a) for a in t["args"]]
+                on_payload = any(isinstance(x, tuple) and x and x[0] == "as" and x[-1] == "Match" for a in args for x in T.walk(a))
+                if on_payload and any(cn.endswith(s_) or s_ in cn for s_ in lossy_calls):
+                    bad = (t.get("span"), cn)
+                cb = prog.body(cn)
+                if cb is not None and cb.crate.name == "llfree" and "Policy" in cn:
+                    todo.append(cb)
+        if bad is not None:
+            rep.violation(rule, key, "the hand-written order of Policy applies a lossy operation (%s) to the Match priority: different "
+                          "ratings compare Equal, so the candidate buffer neither keeps nor tries the better one first" % bad[1], bad[0])
+        else:
+            rep.check(True, rule, key, "undecided: hand-written order without a visible lossy operation")
+            rep.note("%s: %s is hand-written; that it distinguishes all ratings is undecided" % (rule, key))
+
+
+_run_c16 = run
+
+
+def run(rep, programs):  # noqa: F811
+    _run_c16(rep, programs)
+    r_policy_order(rep, programs["core"])
